@@ -47,11 +47,13 @@ class Array(Element[List[Item]]):  # pylint: disable=missing-param-doc
 
     @property
     def annotation(self) -> str:
-        if not self.item_annotations:
+        # Evaluated once: each evaluation walks all the nested items.
+        item_annotations = self.item_annotations
+        if not item_annotations:
             return "List"
-        if len(self.item_annotations) == 1:
-            return f"List[{self.item_annotations[0]}]"
-        return f"List[Union[{', '.join(self.item_annotations)}]]"
+        if len(item_annotations) == 1:
+            return f"List[{item_annotations[0]}]"
+        return f"List[Union[{', '.join(item_annotations)}]]"
 
     @property
     def item_annotations(self) -> List[str]:
